@@ -7,6 +7,12 @@
      UnregisterConnection Get conn_state:c ; Get client_conn:x ; Delete client_conn:x (only if it names c) ; Delete conn_state:c
      RefreshConnection   Get conn_state:c ; Set conn_state:c (the record it read) ; Get client_conn:x ; Set client_conn:x (only if it names c)
    SessionManager.handleHeartbeat / CloseConnection / handleHandshake reach the store only through these methods.
+   `cas` selects the code: true = the tree with fixes/C08-atomic-client-index-cas.diff (+ C08-hybrid-compare-and-swap.diff), where the
+   "read the index, then delete / re-set it" pair of UnregisterConnection / RefreshConnection is ONE storage call
+   (CompareAndSwap(index, c -> tombstone) resp. CompareAndSwap(index, c -> c); a tombstone reads as "absent"):
+     UnregisterConnection Get conn_state:c ; CAS client_conn:x ; Delete conn_state:c
+     RefreshConnection   Get conn_state:c ; Set conn_state:c ; CAS client_conn:x
+   false = the tree before it (two calls, as listed above).
    No time passes inside a concurrent phase: deadlines play no role here (Model/ConnState.v has them).
    Definitions only, no proofs. *)
 From TX Require Import Base.Threads.
@@ -26,15 +32,15 @@ Inductive tres := TFound (n c : N) | TAbsent.
 Inductive tprog :=
 | TFind (x : N) | TFind2 (c : N) | TFindDone (r : tres)
 | TReg (n c x : N) (ctl : bool) | TReg2 (c x : N)
-| TUnreg (c : N) | TUnreg2 (c x : N) | TUnreg3 (c x : N) | TUnreg4 (c : N)
-| TRefresh (c : N) | TRefresh2 (c : N) (r : crec) | TRefresh3 (c x : N) | TRefresh4 (c x : N)
+| TUnreg (c : N) | TUnreg2 (c x : N) | TUnreg3 (c x : N) | TUnregC (c x : N) | TUnreg4 (c : N)
+| TRefresh (c : N) | TRefresh2 (c : N) (r : crec) | TRefresh3 (c x : N) | TRefresh4 (c x : N) | TRefreshC (c x : N)
 | TDone.
 
 Definition indexed (r : crec) : bool := let '(x, _, ctl) := r in ctl && (0 <? x).
 Definition opt_eqb (o : option N) (c : N) : bool := match o with Some c' => c' =? c | None => false end.
 
 (* one storage call of one method invocation *)
-Definition tstep (lo : tprog) (sh : tstore) : tprog * tstore :=
+Definition tstep (cas : bool) (lo : tprog) (sh : tstore) : tprog * tstore :=
   match lo with
   | TFind x => (match tci sh x with Some c => TFind2 c | None => TFindDone TAbsent end, sh)
   | TFind2 c => (match tcs sh c with Some (_, n, _) => TFindDone (TFound n c) | None => TFindDone TAbsent end, sh)
@@ -44,22 +50,24 @@ Definition tstep (lo : tprog) (sh : tstore) : tprog * tstore :=
   | TReg2 c x => (TDone, {| tcs := tcs sh; tci := tupd (tci sh) x (Some c) |})
   | TUnreg c =>
       (match tcs sh c with
-       | Some (x, n, ctl) => if indexed (x, n, ctl) then TUnreg2 c x else TUnreg4 c
+       | Some (x, n, ctl) => if indexed (x, n, ctl) then (if cas then TUnregC c x else TUnreg2 c x) else TUnreg4 c
        | None => TUnreg4 c
        end, sh)
   | TUnreg2 c x => (if opt_eqb (tci sh x) c then TUnreg3 c x else TUnreg4 c, sh)
   | TUnreg3 c x => (TUnreg4 c, {| tcs := tcs sh; tci := tupd (tci sh) x None |})
+  | TUnregC c x => (TUnreg4 c, if opt_eqb (tci sh x) c then {| tcs := tcs sh; tci := tupd (tci sh) x None |} else sh)
   | TUnreg4 c => (TDone, {| tcs := tupd (tcs sh) c None; tci := tci sh |})
   | TRefresh c => (match tcs sh c with Some r => TRefresh2 c r | None => TDone end, sh)
   | TRefresh2 c r =>
-      (if indexed r then TRefresh3 c (fst (fst r)) else TDone, {| tcs := tupd (tcs sh) c (Some r); tci := tci sh |})
+      (if indexed r then (if cas then TRefreshC c (fst (fst r)) else TRefresh3 c (fst (fst r))) else TDone, {| tcs := tupd (tcs sh) c (Some r); tci := tci sh |})
   | TRefresh3 c x => (if opt_eqb (tci sh x) c then TRefresh4 c x else TDone, sh)
   | TRefresh4 c x => (TDone, {| tcs := tcs sh; tci := tupd (tci sh) x (Some c) |})
+  | TRefreshC c x => (TDone, if opt_eqb (tci sh x) c then {| tcs := tcs sh; tci := tupd (tci sh) x (Some c) |} else sh)
   | TDone => (TDone, sh)
   end.
 
 Definition tstate := st tstore tprog.
-Definition trun (s : tstate) (sched : list nat) : tstate := run tstore tprog tstep s sched.
+Definition trun (cas : bool) (s : tstate) (sched : list nat) : tstate := run tstore tprog (tstep cas) s sched.
 
 Definition is_find (lo : tprog) : bool :=
   match lo with TFind _ | TFind2 _ | TFindDone _ => true | _ => false end.
@@ -116,3 +124,39 @@ Fixpoint second_of_1_after (k : nat) (sched : list nat) (u r : nat) : bool :=
       | _ => if Nat.eqb r 1 then Nat.eqb u k else second_of_1_after k rest u (S r)
       end
   end.
+
+(* ---- vocabulary of "X's registration (B, new) survives everything else" (Proofs: registration_stable) ----
+   R = the record of the new connection; a thread program is `safe` when it is not an un-registration of `new`, and any
+   registration it performs for client X or for connection `new` is exactly the registration (B, new, X);
+   no invocation is inside the legacy two-call sequence (the repaired code has no such state) *)
+Definition safe_prog (X B new : N) (lo : tprog) : Prop :=
+  match lo with
+  | TReg n c x ctl => (c = new \/ (x = X /\ indexed (x, n, ctl) = true)) -> (n = B /\ c = new /\ x = X /\ ctl = true)
+  | TReg2 c x => (c = new \/ x = X) -> (c = new /\ x = X)
+  | TUnreg c | TUnregC c _ | TUnreg4 c => c <> new
+  | TRefresh2 c r => c = new -> r = (X, B, true)
+  | TUnreg2 _ _ | TUnreg3 _ _ | TRefresh3 _ _ | TRefresh4 _ _ => False   (* states of the two-call code only *)
+  | _ => True
+  end.
+Definition established (X B new : N) (sh : tstore) : Prop := tci sh X = Some new /\ tcs sh new = Some (X, B, true).
+
+(* invariant carried through every schedule: i0 = the invocation RegisterConnection(B, new, X), j = a lookup of X that is
+   only started once that registration has completed (j = None: no lookup tracked) *)
+Definition reg_inv (X B new : N) (i0 : nat) (s : tstate) : Prop :=
+  Forall (safe_prog X B new) (snd s)
+  /\ (tcs (fst s) new = None \/ tcs (fst s) new = Some (X, B, true))
+  /\ match nth_error (snd s) i0 with
+     | Some (TReg n c x ctl) => n = B /\ c = new /\ x = X /\ ctl = true
+     | Some (TReg2 c x) => c = new /\ x = X /\ tcs (fst s) new = Some (X, B, true)
+     | Some TDone => established X B new (fst s)
+     | _ => False
+     end.
+
+Definition lookup_inv (X B new : N) (i0 j : nat) (s : tstate) : Prop :=
+  reg_inv X B new i0 s /\ nth_error (snd s) i0 = Some TDone
+  /\ match nth_error (snd s) j with
+     | Some (TFind x) => x = X
+     | Some (TFind2 c) => c = new
+     | Some (TFindDone r) => r = TFound B new
+     | _ => False
+     end.
